@@ -192,3 +192,9 @@ func VerifNewTokenBucket(rps float64, burst int, now time.Time) *VerifTokenBucke
 	return &VerifTokenBucket{l: newTokenBucketLimiter(rps, burst, now)}
 }
 func (b *VerifTokenBucket) AllowAt(now time.Time) bool { return b.l.AllowAt(now) }
+
+// VerifNewQueueStore builds the queue store exactly as run() does (limits, retention, DLQ wiring from the compiled config).
+func VerifNewQueueStore(compiled config.Compiled, dbPath string) (queue.Store, func() error, error) {
+	store, _, closeFn, err := newQueueStore(compiled, dbPath, "")
+	return store, closeFn, err
+}
